@@ -445,6 +445,11 @@ def getitem(I, base, idx, lineno=None):
         if idx is Ellipsis or idx == ():
             return base
         raise Unsupported(f"subscript of a generic element by {idx!r} (line {lineno})")
+    if isinstance(base, LocIndexer):
+        mask, col = idx
+        if isinstance(mask, SV) and mask.is_bool and isinstance(col, str):
+            return getitem(I, getitem(I, base.rec, col, lineno), mask, lineno)
+        raise Unsupported(".loc of this form")
     if isinstance(base, Rec):
         if isinstance(idx, str):
             if idx not in base.fields:
@@ -542,7 +547,43 @@ def fancy(I, base, idx, lineno):
     return SArr(na, idx.n, base.elem, base.kind)
 
 
+class LocIndexer:
+    """frame.loc[mask, column] on a generic-row record"""
+    def __init__(self, rec):
+        self.rec = rec
+
+
+class GroupBy:
+    def __init__(self, sv_, by):
+        self.sv = sv_
+        self.by = by
+
+
+def reduction(I, kind, x):
+    """sum / max / min over the rows of a (masked) column: an uninterpreted number per distinct (term, mask);
+    recorded so that contracts can state the sum calculus rules they need"""
+    x = lift(x)
+    key = (kind, x.t.get_id(), x.guard.get_id() if x.guard is not None else None)
+    if key not in I.reductions:
+        c = z3.Real(f"{kind}#{len(I.reductions)}")
+        I.reductions[key] = {'kind': kind, 'term': x.t, 'mask': x.guard, 'value': c}
+    return SV(I.reductions[key]['value'], kind='scalar')
+
+
 def setitem(I, frame, target_expr, base, idx, val, lineno=None):
+    if isinstance(base, LocIndexer):
+        mask, col = idx
+        if not (isinstance(mask, SV) and mask.is_bool and isinstance(col, str)):
+            raise Unsupported(".loc assignment of this form")
+        assumed(I, 'elementwise')
+        cur = base.rec.fields.get(col)
+        if cur is None:
+            raise PyRaise('KeyError', col, lineno)
+        v = lift(val) if not isinstance(val, SV) else val
+        new = ite(I, mask.t, SV(v.t, v.pinf, v.ninf), lift(cur))
+        base.rec.fields[col] = SV(new.t, new.pinf, new.ninf, None, 'series', base.rec.index)
+        base.rec.writes.append(col)
+        return
     if isinstance(base, SV):
         if isinstance(idx, SV) and idx.is_bool:
             assumed(I, 'elementwise')
@@ -561,6 +602,10 @@ def setitem(I, frame, target_expr, base, idx, val, lineno=None):
         raise Unsupported(f"item assignment on generic element with index {idx!r}")
     if isinstance(base, Rec):
         if isinstance(idx, str):
+            if base.kind == 'frame' and isinstance(val, (int, float)) and not isinstance(val, bool):
+                val = SV(RV(float(val)), kind='series', index=base.index)
+            elif base.kind == 'frame' and isinstance(val, SV) and val.kind in ('ndarray', 'scalar'):
+                val = SV(val.t, val.pinf, val.ninf, val.guard, 'series', base.index)
             base.fields[idx] = val
             base.writes.append(idx)
             return
@@ -648,7 +693,14 @@ def getattr_(I, base, attr, frame, lineno=None):
             return I.eval_in_module(node.value, c.mod)
         return Func(node, c.mod, None, f"{c.mod.name}::{c.name}.{node.name}", None, c)
     if isinstance(base, ModV):
-        return I.module_global(base.mod, attr)
+        try:
+            return I.module_global(base.mod, attr)
+        except KeyError:
+            from . import extract as _ex
+            try:
+                return ModV(_ex.load_module(base.mod.name + '.' + attr))
+            except FileNotFoundError:
+                raise Unsupported(f"attribute {attr} of module {base.mod.name}")
     if isinstance(base, LibNS):
         return base.get(attr)
     if isinstance(base, SV):
@@ -668,6 +720,10 @@ def getattr_(I, base, attr, frame, lineno=None):
             return bound('dict.items', lambda: PList([(k, v) for k, v in base.items()]))
         if attr == 'values':
             return bound('dict.values', lambda: PList(list(base.values())))
+    if isinstance(base, GroupBy):
+        if attr in ('sum', 'max', 'min'):
+            return bound(attr, lambda *a, **k: reduction(I, attr, base.sv))
+        raise Unsupported(f"groupby().{attr}")
     if isinstance(base, Opaque):
         if base.tag == 'flags':
             return Opaque('flags')
@@ -734,6 +790,16 @@ def sv_attr(I, x, attr, lineno):
         return bound('fillna', lambda v, **k: x)      # reals have no NaN
     if attr == 'item':
         return bound('item', lambda: x)
+    if attr == 'groupby':
+        return bound('groupby', lambda *a, **k: GroupBy(x, a))
+    if attr in ('sum', 'max', 'min'):
+        def red(*a, **k):
+            if x.kind == 'scalar':
+                return x
+            return reduction(I, attr, x)
+        return bound(attr, red)
+    if attr == 'reset_index':
+        return bound('reset_index', lambda *a, **k: None if k.get('inplace') else x)
     if attr == 'name':
         return None
     raise Unsupported(f"attribute {attr} of a numeric value (line {lineno})")
@@ -757,6 +823,10 @@ def rec_attr(I, r, attr, lineno):
         return Opaque(('keys', tuple(r.fields)))
     if attr == 'to_pandas':
         return bound('to_pandas', lambda: r)
+    if attr == 'loc':
+        return LocIndexer(r)
+    if attr == 'columns':
+        return Opaque(('keys', tuple(r.fields)))
     if attr == 'drop':
         def drop(cols=None, columns=None, axis=None, inplace=False, **k):
             cs = columns if columns is not None else cols
@@ -1110,6 +1180,49 @@ def np_searchsorted(I, a, v, side='left', **kw):
         I.assume(z3.ForAll([j], z3.Implies(z3.And(j >= 0, j < p), sel_(j) < x)))
         I.assume(z3.ForAll([j], z3.Implies(z3.And(j >= p, j < a.n), sel_(j) >= x)))
     return SV(p, guard=v.guard, kind=v.kind)
+
+
+def np_isclose(I, a, b, rtol=1e-05, atol=1e-08, **kw):
+    if isinstance(a, (int, float)) and isinstance(b, (int, float)):
+        return abs(a - b) <= atol + rtol * abs(b)
+    a, b = lift(a), lift(b)
+    d = realish(a.t) - realish(b.t)
+    bb = realish(b.t)
+    return _mk(I, z3.And(d <= RV(atol) + RV(rtol) * z3.If(bb >= 0, bb, -bb), -d <= RV(atol) + RV(rtol) * z3.If(bb >= 0, bb, -bb)), a, b)
+
+
+def np_all(I, x, **kw):
+    if isinstance(x, bool):
+        return x
+    x = lift(x)
+    if x.kind == 'scalar':
+        return x
+    r = I.fresh('all', 'bool')
+    I.assume(z3.Implies(r, x.t if x.guard is None else z3.Implies(x.guard, x.t)))
+    return SV(r)
+
+
+def np_any(I, x, **kw):
+    if isinstance(x, bool):
+        return x
+    x = lift(x)
+    if x.kind == 'scalar':
+        return x
+    r = I.fresh('any', 'bool')
+    I.assume(z3.Implies(x.t if x.guard is None else z3.And(x.guard, x.t), r))
+    return SV(r)
+
+
+def optimize_root(I, fun, x0=None, tol=None, **kw):
+    """assumed contract of scipy.optimize.root (A_TEXT['root'])"""
+    assumed(I, 'root')
+    x = I.fresh('rootx')
+    ok = I.fresh('root_success', 'bool')
+    y = lift(I.call(fun, [SV(x)], {}))
+    I.assume(z3.Implies(ok, realish(y.t) == 0))
+    res = Rec({'success': SV(ok), 'x': PList([SV(x)], 'vec'), 'fun': y}, 'result')
+    I.root_records.append({'x': x, 'f': y.t, 'success': ok})
+    return res
 
 
 def np_invert(I, x):
@@ -1519,6 +1632,8 @@ def make_libs(I):
 
     I.external_calls = []
     I.cumsum_records = []
+    I.reductions = {}
+    I.root_records = []
 
     def opaque_attr(base, attr):
         if isinstance(base.tag, tuple) and base.tag[0] == 'external':
@@ -1547,7 +1662,7 @@ def make_libs(I):
         'logical_and': Builtin('logical_and', lambda a, b: logical_and(I, a, b)),
         'logical_or': Builtin('logical_or', lambda a, b: _mk(I, z3.Or(lift(a).t, lift(b).t), lift(a), lift(b))),
         'empty': L(np_empty), 'arange': L(np_arange), 'cumsum': L(np_cumsum), 'insert': L(np_insert), 'append': L(np_append),
-        'concatenate': L(np_concatenate), 'searchsorted': L(np_searchsorted),
+        'concatenate': L(np_concatenate), 'searchsorted': L(np_searchsorted), 'isclose': L(np_isclose), 'all': L(np_all), 'any': L(np_any),
         'inf': SV(float('inf')), 'pi': SV(z3.Real('PI')), 'nan': Opaque('nan'),
         'float64': Opaque('float64'), 'double': Opaque('float64'), 'uintp': Opaque('uintp'), 'int64': Opaque('int64'),
         'bool_': Opaque('bool'), 'int8': Opaque('int8'),
@@ -1560,7 +1675,7 @@ def make_libs(I):
         'DataFrame': LibType('pd.DataFrame', lambda *a, **k: pd_frame(I, *a, **k)),
         'api': Opaque('pd.api'),
     })
-    optimize = LibNS('optimize', {'newton': L(newton)})
+    optimize = LibNS('optimize', {'newton': L(newton), 'root': L(optimize_root)})
     def norm_args(x, loc, scale):
         x = lift(x)
         t = realish(as_arith(x).t)
